@@ -191,7 +191,7 @@ fn judge_faulty(n: usize, idx: u64, st: &Start, plan: &Plan, rep: &Report, disk_
     let cmp = |a: &str, b: &str, c: &str, d: &str| altered(mode, &consumed, a, b, c, d);
     let started = rep.started_set();
     let case_hash = fnv(&format!("{}{}{}{:?}", idx, st.name, plan.brief(), rep.choices));
-    if rep.errors.is_empty() && rep.history_out.is_some() && rep.violations.is_empty() && u.history_out.is_some() {
+    if rep.errors.is_empty() && rep.history_out.is_some() && u.history_out.is_some() {
         let hout = rep.history_out.as_ref().unwrap();
         let ustarted = u.started_set();
         if !rep.interrupted() {
@@ -247,7 +247,7 @@ fn judge_faulty(n: usize, idx: u64, st: &Start, plan: &Plan, rep: &Report, disk_
             acc.evaluations += 1;
             let rdisk = w.borrow().disk.clone();
             viols.extend(r2.violations.iter().cloned());
-            if r2.violations.is_empty() && r2.history_out.is_some() {
+            if r2.errors.is_empty() && r2.history_out.is_some() {
                 for j in &r2.started {
                     if !ustarted.contains(j) {
                         viols.push(mk("C09", "resume-executed-extra-job", format!("{}:{}", kind_char(g.kind(j)), rep.disposition(j)), format!("resume executed {} (was {} in the interrupted run) which the uninterrupted run {:?} did not", j, rep.disposition(j), ustarted)));
@@ -638,7 +638,7 @@ fn misuse(n: usize, idx: u64, g0: &Graph, mode: CmpMode, stamp: &mut u64, acc: &
                 acc.primary += 1;
                 let mut viols = rep.violations.clone();
                 // the rest of the run must be exactly what it is without the illegal calls
-                if twin.violations.is_empty() {
+                if twin.errors.is_empty() {
                     let same = rep.started == twin.started
                         && rep.choices == twin.choices
                         && rep.history_out == twin.history_out
